@@ -31,6 +31,10 @@ CT = 'commands::test'
 EC = 'rules::eval_context'
 
 UNITS = {
+    'U-binflip': dict(functions='operators: impl Comparator for (CmpOperator, bool), CmpOperator, EqOperation, InOperation, CommonOperator, match_value',
+                      cls='complete for a single Int value against an Int literal (all i64 x i64 x not) per operator; type mismatch / unresolved / empty cases',
+                      quick=reg('rules::eval::operators', ['k_flip_eq', 'k_flip_lt', 'k_flip_le', 'k_flip_gt', 'k_flip_ge', 'k_flip_in', 'k_flip_not_comparable']),
+                      thorough=[], assumptions=STUBS, timeout=900, mem_gb=8),
     'U-unary': dict(functions='eval::unary_operation (+ exists/empty/is_* helpers, not_operation, inverse_operation, record_unary_clause)',
                     cls='bounded (single selected value of each of 9 value kinds, empty selection, bare-variable special case); complete in operator-not x prefix-not',
                     quick=reg('rules::eval', ['k_unary_exists', 'k_unary_empty', 'k_unary_is_string', 'k_unary_is_list', 'k_unary_is_map', 'k_unary_is_bool',
